@@ -32,6 +32,7 @@ All integers are little-endian for C++ interop.  Offsets are absolute
 
 from __future__ import annotations
 
+import contextlib
 import logging
 import os
 import struct
@@ -634,7 +635,16 @@ def resolve_shm_batch(
         ) from exc
 
     buf = shm.read_buffer(offset, length)
-    resolved_batch = _deserialize_from_shm(buf, batch.schema)
+    try:
+        resolved_batch = _deserialize_from_shm(buf, batch.schema)
+    except Exception:
+        # No release handle leaves this function on this path, so nobody else
+        # can ever free the region; the receiver is done with it (it cannot be
+        # read), and nothing in the framework resets a segment mid-session.
+        del buf
+        with contextlib.suppress(ValueError):  # the pointer did not name a live allocation
+            shm.free(offset)
+        raise
 
     # Strip pointer keys, add provenance
     resolved_cm = strip_keys(custom_metadata, SHM_OFFSET_KEY, SHM_LENGTH_KEY)
